@@ -71,20 +71,23 @@ type ordFrame struct {
 }
 
 type ordAn struct {
-	w        *World
-	fset     *token.FileSet
-	M        string
-	keyed    map[string]bool
-	events   []ordEvent
-	fails    []string
-	assumes  map[string]bool
-	accs     map[*types.Var]string
-	accLit   map[*types.Var]string
-	accStmts map[ast.Node]bool
-	wroteOwn bool
-	stack    []*types.Func
-	frames   []*ordFrame
-	hasSortK bool
+	w          *World
+	fset       *token.FileSet
+	M          string
+	keyed      map[string]bool
+	events     []ordEvent
+	fails      []string
+	assumes    map[string]bool
+	accs       map[*types.Var]string
+	accLit     map[*types.Var]string
+	accStmts   map[ast.Node]bool
+	wroteOwn   bool
+	stack      []*types.Func
+	frames     []*ordFrame
+	hasSortK   bool
+	earlyExits []token.Pos       // breaks and constant returns out of the loop
+	constRet   string            // the constant result tuple of the successful returns inside the loop
+	constSet   map[string]string // container -> the one constant that iterations store into cells of it (any index)
 	// of the loop under analysis
 	site       string          // the call statement of the loop body (depth 0) being analysed
 	except     map[string]bool // callees whose unestablished effects are assumed (order_except)
@@ -636,8 +639,11 @@ func (a *ordAn) stmt(s ast.Stmt) {
 			a.checkAbort(s)
 		}
 	case *ast.BranchStmt:
-		if a.fr().depth == 0 && (s.Tok == token.GOTO || s.Tok == token.BREAK && a.breaksLoop(s)) {
-			a.fail(s.Pos(), "%s leaves the loop on a condition other than an error: which iteration does so first depends on the iteration order", s.Tok)
+		if a.fr().depth == 0 && s.Tok == token.GOTO {
+			a.fail(s.Pos(), "goto leaves the loop: which iteration does so first depends on the iteration order")
+		}
+		if a.fr().depth == 0 && s.Tok == token.BREAK && a.breaksLoop(s) {
+			a.earlyExits = append(a.earlyExits, s.Pos()) // judged at the end: harmless when the loop's only effects are constant flags
 		}
 	case *ast.GoStmt, *ast.SelectStmt, *ast.SendStmt:
 		a.fail(s.Pos(), "concurrency statement inside the iteration")
@@ -652,6 +658,30 @@ func (a *ordAn) stmt(s ast.Stmt) {
 func (a *ordAn) breaksLoop(s *ast.BranchStmt) bool { return a.loopBreaks[s] }
 
 func (a *ordAn) checkAbort(s *ast.ReturnStmt) {
+	// `return <constants>` (a search: "is there a key such that ..."): the same result whichever key
+	// triggers it; harmless when the loop has no effects (judged at the end)
+	if len(s.Results) > 0 {
+		var parts []string
+		all := true
+		for _, r := range s.Results {
+			t, ok := isConstLit(r)
+			if !ok {
+				all = false
+				break
+			}
+			parts = append(parts, t)
+		}
+		if all {
+			txt := strings.Join(parts, ",")
+			if a.constRet == "" || a.constRet == txt {
+				a.constRet = txt
+				a.earlyExits = append(a.earlyExits, s.Pos())
+				return
+			}
+			a.fail(s.Pos(), "the loop returns different constants from different iterations")
+			return
+		}
+	}
 	sig := a.loopSig
 	n := sig.Results().Len()
 	if n == 0 {
@@ -768,7 +798,41 @@ func (a *ordAn) write(lhs ast.Expr, rhs ast.Expr, st ast.Stmt, tok token.Token) 
 		}
 		return
 	}
+	// storing one and the same constant into cells of a map is idempotent and commutative whatever the
+	// index is (building a set), provided the iterations do not read the map
+	if ix, ok := lhs.(*ast.IndexExpr); ok && tok == token.ASSIGN && rhs != nil {
+		if t := fr.info.TypeOf(ix.X); t != nil {
+			if _, isMap := t.Underlying().(*types.Map); isMap {
+				if lit, ok := constText(rhs); ok {
+					cont := a.nameOf(ix.X)
+					if !strings.Contains(cont, "?") {
+						if a.constSet == nil {
+							a.constSet = map[string]string{}
+						}
+						if prev, seen := a.constSet[cont]; !seen || prev == lit {
+							a.constSet[cont] = lit
+							a.expr(ix.Index)
+							return
+						}
+					}
+				}
+			}
+		}
+	}
 	a.fail(st.Pos(), "write to %s: state shared by all iterations, not a cell indexed by the loop key", types.ExprString(lhs))
+}
+
+// constText: a constant expression (literal, true/false/nil, struct{}{}), as text.
+func constText(e ast.Expr) (string, bool) {
+	if s, ok := isConstLit(e); ok {
+		return s, true
+	}
+	if cl, ok := ast.Unparen(e).(*ast.CompositeLit); ok && len(cl.Elts) == 0 {
+		if st, ok := cl.Type.(*ast.StructType); ok && (st.Fields == nil || len(st.Fields.List) == 0) {
+			return "struct{}{}", true
+		}
+	}
+	return "", false
 }
 
 // pathOf: root identifier of an addressable expression, whether the path dereferences a pointer / indexes
@@ -1615,6 +1679,18 @@ func (w *World) analyseMapRange(fi *FuncInfo, rs *ast.RangeStmt, parents map[ast
 			}
 		}
 	}
+	// early exits other than error returns: only when stopping early cannot be observed
+	if len(a.earlyExits) > 0 {
+		onlyFlags := !a.wroteOwn && len(a.keyed) == 0 && len(a.constSet) == 0
+		for _, k := range a.accs {
+			if k != "const" {
+				onlyFlags = false
+			}
+		}
+		if !onlyFlags {
+			a.fail(a.earlyExits[0], "the loop is left early (break or constant return) although iterations have effects other than constant flags: which iterations ran depends on the iteration order")
+		}
+	}
 	// slices collected in map order must be sorted before their next use
 	for v, kind := range a.accs {
 		if kind != "append" {
@@ -1640,7 +1716,29 @@ func (w *World) analyseMapRange(fi *FuncInfo, rs *ast.RangeStmt, parents map[ast
 		}
 		return ""
 	}
+	relatedTo := func(s string, set map[string]string) string {
+		for t := range set {
+			if s == t || strings.HasPrefix(t, s+".") || strings.HasPrefix(t, s+"[") {
+				return t
+			}
+		}
+		return ""
+	}
 	for _, ev := range a.events {
+		if len(a.constSet) > 0 {
+			switch ev.kind {
+			case "idx", "whole":
+				if t := relatedTo(ev.s, a.constSet); t != "" {
+					a.failAt(ev.site, ev.pos, "%s is read (or handed to a callee) while iterations store into cells of %s under indices other than the loop key", ev.s, t)
+				}
+			case "alias":
+				for _, r := range ev.roots {
+					if strings.HasPrefix(r, "?") || relatedTo(r, a.constSet) != "" {
+						a.failAt(ev.site, ev.pos, "a local holds a reference into %s while iterations store into it", r)
+					}
+				}
+			}
+		}
 		switch ev.kind {
 		case "idx":
 			if targets[ev.s] && !ev.keyed {
@@ -1688,6 +1786,14 @@ func (w *World) analyseMapRange(fi *FuncInfo, rs *ast.RangeStmt, parents map[ast
 	}
 	if a.wroteOwn {
 		cls = append(cls, "writes objects owned by the key")
+	}
+	if len(a.constSet) > 0 {
+		var ks []string
+		for k, v := range a.constSet {
+			ks = append(ks, k+"[..] = "+v)
+		}
+		sort.Strings(ks)
+		cls = append(cls, "stores one constant into cells "+strings.Join(ks, ", "))
 	}
 	var accn []string
 	for v, k := range a.accs {
